@@ -18,6 +18,7 @@ from .codec import B, enc, dec
 # 10^2..10^6 of them per public call, the budget is 10^7 per call (reset at the entry of every public Traph method).  Exceeding it raises RunawayRequest from inside the storage
 # call, which surfaces as an exception of the request (a violation of the property being checked, clause 'exception').
 BUDGET = [0]
+DEPTH = [0]
 LIMIT = 10000000
 
 
@@ -27,6 +28,7 @@ class RunawayRequest(Exception):
 
 def reset_budget():
     BUDGET[0] = 0
+    DEPTH[0] = 0
 
 
 def _install_budget():
@@ -64,8 +66,14 @@ def _install_resets():
         def make(orig):
             @functools.wraps(orig)
             def f(*a, **k):
-                BUDGET[0] = 0
-                return orig(*a, **k)
+                # only the OUTERMOST public call resets (the library calls its own public helpers, e.g. expand_prefix)
+                if DEPTH[0] == 0:
+                    BUDGET[0] = 0
+                DEPTH[0] += 1
+                try:
+                    return orig(*a, **k)
+                finally:
+                    DEPTH[0] -= 1
             f._tv_reset = True
             return f
         setattr(Traph, name, make(orig))
